@@ -18,8 +18,8 @@ def in_quantifier(n, peaks, troughs, rises, decays):
     decay before a leading trough / rise before a leading peak, one decay after a final peak / rise after a final trough.
     Returns (ok, sorted extrema, (first, last) cyclepoint of the whole set)."""
     ext = sorted([(p, 'p') for p in peaks] + [(t, 't') for t in troughs])
-    if len(ext) < 2:
-        return False, ext, None
+    if len(ext) < 1 or (len(ext) == 1 and not ((rises or []) + (decays or []))):
+        return False, ext, None          # at least one extremum and at least two cyclepoints in all
     for (x, kx), (y, ky) in zip(ext[:-1], ext[1:]):
         if kx == ky or y - x < 2:
             return False, ext, None
@@ -223,6 +223,27 @@ def exhaustive(sh, N, cap_prod):
                 if len(peaks) >= 2 and len(troughs) >= 2:
                     nt += 1
                     sh.nontrivial.add('x%d:%d:%s' % (n, pid, first_kind))
+    # cyclepoint sets with a single extremum: (rise,) peak (, decay) and (decay,) trough (, rise) at every position
+    single = 0
+    for n in range(2, min(N, 11) + 1):
+        for e in range(n):
+            pid += 1
+            if pid % sh.nshards != sh.shard:
+                continue
+            for kind in 'pt':
+                for lead in [None] + list(range(e)):
+                    for trail in [None] + list(range(e + 1, n)):
+                        if lead is None and trail is None:
+                            continue
+                        rises, decays = [], []
+                        if lead is not None:
+                            (rises if kind == 'p' else decays).append(lead)
+                        if trail is not None:
+                            (decays if kind == 'p' else rises).append(trail)
+                        call(sh, n, [e] if kind == 'p' else [], [e] if kind == 't' else [], rises, decays, 'exhaustive')
+                        single += 1
+    tot += single
+    attach.count('C17:sets_with_a_single_extremum', single)
     sh.cases += tot
     sh.exhaustive['alternating_placements_gap>=2_len<=%d' % N] = {'cases': tot, 'placements_with_partial_midpoint_enumeration': partial,
                                                                    'midpoint_product_cap': cap_prod,
